@@ -320,6 +320,11 @@ class Engine(object):
         kind = ex.k.hints.get('dict_kind', {}).get(e.lineno, ex.k.hints.get('dict_kind_default', 'dict'))
         if kind == 'fdict':
             return ex.alloc_fdict(path)
+        if kind in ('refdict', 'refdict2'):
+            r, h = path.heap.new()
+            path.heap = h.with_(rd_dom=z3.Store(h['rd_dom'], r, z3.K(I, z3.BoolVal(False))),
+                                b_node=z3.Store(h['b_node'], r, z3.BoolVal(False)))
+            return SV(kind, r)
         return ex.alloc_dict(path)
 
     def static_isinstance(self, sv, clsname):
@@ -659,6 +664,10 @@ class Engine(object):
             c.h1 = p.heap
             c.yH = p.ghosts.get('yH', hp.empty_set())
             c.yP = p.ghosts.get('yP', hp.empty_rel())
+            if kind == 'return' and k.hints.get('ghost_exit'):
+                # sidecar ghost code at the function's normal exit (writes ghost components only)
+                k.hints['ghost_exit'](c, p)
+                c.h1 = p.heap
             if kind == 'return':
                 n_ret += 1
                 for x_ in self.ext:
@@ -917,6 +926,9 @@ class Extension(object):
 
     def coerce(self, E, ex, sv, ty, path):
         return None
+
+    def assign_subscript(self, E, ex, base, idx, v, path, st):
+        return False
 
     def coerce_return(self, E, ex, val, ret, path):
         return None
